@@ -176,6 +176,54 @@ def base_network(rng, family=None):
     return net
 
 
+def with_unused_points(rng, net):
+    """the same network plus one or two points that are LISTED WITH COORDINATES ONLY (neither fix= nor adj=: they
+    do not take part in the adjustment) and a few distances / slope distances / height differences measured to
+    them from points of the network.  gama-local leaves these observations out; whether it does must not depend
+    on which end of the observation the unused point is written at (swap).  The uids of the added observations
+    are in net['unused_uids']."""
+    n = copy.deepcopy(net)
+    P = n["points"]
+    ids = [i for i in P if P[i].get("status") in ("fix", "adj", "con")]
+    level = not any("x" in P[i] for i in ids)
+    has_z = any("z" in P[i] for i in ids)
+    added = []
+    for k in range(rng.randint(1, 2)):
+        pid = f"U{k + 1}"
+        q = {"status": "none"}
+        if not level:
+            xs, ys = [P[i]["x"] for i in ids if "x" in P[i]], [P[i]["y"] for i in ids if "x" in P[i]]
+            q["x"] = rng.uniform(min(xs), max(xs)) + rng.choice([-1, 1]) * rng.uniform(20, 80)
+            q["y"] = rng.uniform(min(ys), max(ys)) + rng.choice([-1, 1]) * rng.uniform(20, 80)
+        if has_z:
+            zs = [P[i]["z"] for i in ids if "z" in P[i]]
+            q["z"] = sum(zs) / len(zs) + rng.uniform(-5, 5)
+        P[pid] = q
+        for ci, o in enumerate(n["obs"]):
+            if o["kind"] == "obs" and not level and "x" in P.get(o["from"], {}) and rng.random() < 0.7:
+                a = P[o["from"]]
+                d2 = math.hypot(q["x"] - a["x"], q["y"] - a["y"])
+                kinds = ["distance"]
+                if "z" in a and "z" in q and any(it["t"] == "s-distance" for it in o["items"]):
+                    kinds.append("s-distance")
+                for t in kinds:
+                    val = d2 if t == "distance" else math.sqrt(d2 * d2 + (q["z"] - a["z"]) ** 2)
+                    it = {"t": t, "to": pid, "val": val + rng.gauss(0, 0.004), "stdev": 5.0, "uid": f"{ci}.u{len(o['items'])}"}
+                    o["items"].append(it)
+                    added.append(it["uid"])
+            elif o["kind"] == "hdiffs" and has_z and o["items"]:
+                for _ in range(rng.randint(1, 2)):
+                    a = rng.choice([i for i in ids if "z" in P[i]])
+                    it = dict(o["items"][0])
+                    it.update({"from": a, "to": pid, "val": q["z"] - P[a]["z"] + rng.gauss(0, 0.001), "uid": f"{ci}.u{len(o['items'])}"})
+                    if rng.random() < 0.5:
+                        it["from"], it["to"], it["val"] = it["to"], it["from"], -it["val"]
+                    o["items"].append(it)
+                    added.append(it["uid"])
+    n["unused_uids"] = added
+    return n
+
+
 # --------------------------------------------------------------------------- expectations
 def ident_expect():
     """how the results of the transformed run are predicted from those of the original run"""
@@ -453,7 +501,7 @@ def random_spec(rng, net, kind=None):
     if kind == "swap":
         if rng.random() < 0.5:
             return {"kind": "swap", "all": True}
-        which = [it["uid"] for o in net["obs"] for it in o["items"] if rng.random() < 0.5]
+        which = [it["uid"] for o in net["obs"] for it in o["items"] if rng.random() < 0.5 or it["uid"] in net.get("unused_uids", ())]
         return {"kind": "swap", "which": which}
     if kind == "mirror":
         return {"kind": "mirror", "axes": rng.choice(AXES), "angles": rng.choice(["left-handed", "right-handed"])}
